@@ -19,7 +19,7 @@ SPEC = {
     'assumptions': ["knife-edge rule: cases in which an observation projects within 1e-6 onto an edge end point or two consecutive observations project to the same relative position are counted as excluded (the strict `ti < prev.ti` penalty test flips)",
                     "equirectangular local projection around the map's anchor; street scale (10-250 m per grid unit), |lat| < 60"],
     'deductive': [("metric selection (setter, __init__)", 'setter', r'.'), ("geometry purity of the matcher modules (syntactic)", 'purity', r'.')],
-    'bounded': [('latlon-vs-projected-planar', geo_suites.case_C15, 600, 12000,
+    'bounded': [('latlon-vs-projected-planar', geo_suites.case_C15, 6000, 120000,
                  "universe maps/traces placed at 7 anchors (|lat| <= 59, several longitudes incl. 179) at 10-250 m per grid unit; emitting-only, no cut-offs, both families; non-trivial = non-empty match on a map with >= 3 nodes", "")],
     'extra_builders': {'setter': lambda prog, tier: [M.vc_use_latlon_setter(prog, v) for v in (True, False, None)] + [M.vc_basemap_init(prog, v) for v in (True, False)],
                        'purity': _purity},
